@@ -435,7 +435,9 @@ pub fn run(a: &Args, rep: &mut Report) {
                 0 => vec![0x61, 0x62],
                 1 => vec![],
                 _ => {
-                    let k = if rng.chance(1, 20) { rng.below(3000) } else { rng.below(30) };
+                    // mostly small; some frames of several KiB; now and then one far above any
+                    // plausible internal chunk size (up to ~90 KiB)
+                    let k = if rng.chance(1, 60) { 3000 + rng.below(27_000) } else if rng.chance(1, 20) { rng.below(3000) } else { rng.below(30) };
                     let v: Vec<u16> = (0..k).map(|_| rng.next_u32() as u16).collect();
                     minicbor::to_vec(&v).unwrap()
                 }
@@ -447,9 +449,11 @@ pub fn run(a: &Args, rep: &mut Report) {
             stream.truncate(c);
         }
         let max_len = *rng.pick(&[16usize, 100, 8192, 512 * 1024]);
+        let big = stream.len() > 12_000;
         let script: Vec<Step> = (0..stream.len().min(4000)).map(|_| match rng.below(8) {
             0 => Step::Interrupted,
             1 => Step::Deliver(usize::MAX),
+            2 | 3 if big => Step::Deliver(*rng.pick(&[512usize, 4096, 8191, 8192, 8193, 16384, 20000]) + rng.below(3) as usize),
             _ => Step::Deliver(1 + rng.below(13) as usize),
         }).collect();
         rep.seen(fnv64(&stream));
